@@ -118,6 +118,54 @@ CHECKS = {
              "lists, plus a fires-exactly-once check on real IndicationListener objects.",
         note="values compared by ==; arity fixed per command type",
         design="7/C17"),
+    "C04": dict(
+        technique="Lean 4 proof: wire-type universe with exact-inverse lemmas by induction on the type, from_frame loop "
+                  "round-trip theorem under a decidable schema-shape predicate lifted over the regenerated 145-class "
+                  "table by decide +kernel; differential enc/dec of all classes",
+        text="Kernel-checked: bytes = LE32 header ++ parameter encodings in schema order; construction succeeds only "
+             "for in-range values (unsigned/signed ranges characterised); for every schema of the host-parsed shape "
+             "and every constructible assignment from_frame(to_frame(c)) returns c (up to the one provably ambiguous "
+             "encoding: omitted trailing greedy list = empty list, exactly one class); every Rsp/Ind schema of the "
+             "regenerated table has that shape. Tied by regenerating the table from the imported classes and "
+             "comparing real construction, to_frame and from_frame of all 145 classes with the model.",
+        note=Z + "; Req classes: layout and refusal only (the host never parses requests)",
+        design="7/C04"),
+    "C15": dict(
+        technique="Lean 4 proof: from_frame error-branch model; prefix lemma for the parse loop; failure-prefix, "
+                  "zero-status-cut, surplus and cut-before-status theorems; differential over every truncation point "
+                  "of all 69 response classes",
+        text="Kernel-checked: with a non-zero status, bytes that stop anywhere inside a later non-greedy parameter "
+             "yield the partial command with exactly the complete parameters; with status zero the same bytes are "
+             "rejected (except at the start of an optional parameter, where they are a complete shorter command); "
+             "surplus bytes and cuts before the status are rejected. Tied by running real from_frame on every "
+             "truncation point and on surplus bytes for all response classes against the model and an independent "
+             "observation checker.",
+        note=Z + "; greedy last fields: element boundaries are valid encodings (DESIGN 8.3)",
+        design="7/C15"),
+    "C16": dict(
+        technique="Lean 4 proof: scalar/record/list decoders invert encoders on encoding++suffix and reject every strict "
+                  "prefix (induction on the type); recursive C-struct layout: natural alignment and packing theorems "
+                  "for every definition (mutual structural induction); NVRAM read-layout parse theorems; differential "
+                  "on 27 wire types, random CStruct definitions and NVRAM datasets",
+        text="Kernel-checked for every value of every non-greedy wire type: dec(enc v ++ r) = (v, r), dec of any "
+             "strict prefix = value error, decoders fail with value errors only; greedy lists invert exactly; for "
+             "every struct definition and nesting: aligned offsets are multiples of the field alignment and the size "
+             "a multiple of the maximum, packed offsets are prefix sums; NVRAM address-map / APS-key datasets parse "
+             "to exactly the stored records. Tied by differential runs on the real types incl. randomly generated "
+             "CStruct subclasses in both alignment modes.",
+        note=Z + "; CStruct encode/decode tied by correspondence, layout by theorem",
+        design="7/C16"),
+    "C19": dict(
+        technique="Lean 4 proof: regenerated command table contains every pinned wire view (decide +kernel), headers "
+                  "injective, Req/Rsp pairing, status prefix; pinned byte vectors and enum maps re-checked on the "
+                  "current classes",
+        text="Kernel-checked against the committed golden table of the pinned revision: every pinned command is still "
+             "present with the same header, field wire types (order, width, signedness), optional flags and enum "
+             "value sets, hence the same bytes for the same values; headers are pairwise distinct; each request has "
+             "exactly one response of its id. Tied by regenerating the table from the imported classes on every run "
+             "and by re-encoding 870 pinned value assignments and comparing enum members by name.",
+        note="identity is positional and numeric: names and `blocking` are not pinned (DESIGN 8.4)",
+        design="7/C19"),
 }
 
 NOT_YET = "check not built yet in this revision of /verif (planned, see DESIGN.md section 7)"
